@@ -2195,6 +2195,8 @@ void resize_target_update_count(struct cds_lfht *ht,
 
 void cds_lfht_resize(struct cds_lfht *ht, unsigned long new_size)
 {
+	bool was_online;
+
 	resize_target_update_count(ht, new_size);
 
 	/*
@@ -2202,7 +2204,17 @@ void cds_lfht_resize(struct cds_lfht *ht, unsigned long new_size)
 	 */
 	uatomic_store(&ht->resize_initiated, 1);
 
+	/*
+	 * A registered QSBR reader is online: blocking on the resize
+	 * mutex while online would stall the grace periods of the resize
+	 * that currently holds it (deadlock). Go offline while waiting.
+	 */
+	was_online = ht->flavor->read_ongoing();
+	if (was_online)
+		ht->flavor->thread_offline();
 	mutex_lock(&ht->resize_mutex);
+	if (was_online)
+		ht->flavor->thread_online();
 	_do_cds_lfht_resize(ht);
 	mutex_unlock(&ht->resize_mutex);
 }
